@@ -258,14 +258,28 @@ class C17(Check):
                 mine += extra
             t = ds.load_table(root)
             eps = entry_points(t)
-            for s in mine:
-                if s.startswith("/") and s not in extra:
+            # TRUE absolute spellings that are lexically inside the root (both root spellings) and run through
+            # a symlink or '..': the data-file entry points take absolute paths as they are
+            canon = os.path.realpath(arena.table)
+            absin = {}
+            for s0 in mine:
+                if not s0.startswith("/") and s0 not in extra and any(x in s0 for x in ("link", "table2", "..")):
+                    for base in (canon, root):
+                        a = os.path.join(base, s0)
+                        rp = os.path.realpath(a)
+                        absin[a] = not (rp == canon or rp.startswith(canon + os.sep))
+            for s in mine + sorted(absin):
+                if s in absin:
+                    esc = absin[s]
+                elif s.startswith("/") and s not in extra:
                     esc = arena.escapes(root, s)
                 elif os.path.isabs(s):
                     esc = True      # a true absolute path outside the table
                 else:
                     esc = arena.escapes(root, s)
                 for name, fn in eps:
+                    if s in absin and not name.startswith("dfm."):
+                        continue
                     out, bad, any_ev = self._call(arena, fn, s)
                     res.count("calls")
                     res.evals += 1
@@ -285,7 +299,9 @@ class C17(Check):
                             res.violation(f"escaping-path-accepted:{name}", f"{name}({s!r}) returned although the path leaves the table root", wit)
                             return
                         res.count("escaping_rejected")
-                        res.key([name, s])
+                        if s in absin:
+                            res.count("absolute_in_root_escapes_rejected")
+                        res.key([name, s if s not in absin else "<root>/" + os.path.relpath(s, canon if s.startswith(canon) else root)])
                     elif "link" in s:
                         res.key([name, s])
                 # keep the inside of the table from silting up
@@ -431,12 +447,15 @@ class C17(Check):
 
         targets = ["../outside/s2.parquet", "link_out/s2.parquet", "/link_out/s2.parquet", "data/../../outside/s2.parquet",
                    "/../table2/data/x", "table2/data/x", "../../../../etc/passwd", "data/link_file_out",
-                   "/data/../link_out/sub/s3.json", "..", "link_out"]
+                   "/data/../link_out/sub/s3.json", "..", "link_out",
+                   "<ROOT>/link_out/s2.parquet", "<LINKROOT>/link_out/s2.parquet", "<ROOT>/data/../link_out/s2.parquet"]
         for tgt in targets:
             with Scratch("c17t") as d:
                 arena = Arena(str(d / "arena"))
                 arena.build()
                 root = arena.table if case["root"] == "direct" else arena.tlink
+                # a true absolute path that is lexically inside the root and leaves it through a symlink
+                tgt = tgt.replace("<ROOT>", os.path.realpath(arena.table)).replace("<LINKROOT>", arena.tlink)
                 # a real parquet outside, so that a successful escape would yield rows
                 import pyarrow as pa
                 import pyarrow.parquet as pq
